@@ -73,6 +73,30 @@ def shared_case(draw):
     plain = [c["name"] for c in scols]
     if plain and draw(st.integers(0, 5)) == 0:
         spec["unique"] = list(draw(st.permutations(plain)))[: draw(st.integers(1, min(2, len(plain))))]
+    if draw(st.integers(0, 3)) == 0:
+        # string focus: one object column over a regex-stress pool with one pattern / length check
+        pool = ["a", "b", "ab", "ba", "cb", "xb", "bx", "a\u00e9", "\u00e9", "\u00e9\u00e9b", "", "abc", "aab"]
+        cells = draw(st.lists(st.one_of(st.sampled_from(pool), st.sampled_from(pool), st.sampled_from(pool), st.none()),
+                              min_size=n, max_size=n))
+        kind = draw(st.sampled_from(["str_matches", "str_matches", "str_contains", "str_startswith", "str_endswith", "str_length"]))
+        if kind in ("str_matches", "str_contains"):
+            args = {"pattern": draw(st.sampled_from(REGEX_POOL))}
+        elif kind in ("str_startswith", "str_endswith"):
+            args = {"string": draw(st.sampled_from(["a", "b", "ab", "x", ""]))}
+        else:
+            lo = draw(st.one_of(st.none(), st.integers(0, 3)))
+            hi = draw(st.one_of(st.none(), st.integers(0, 3)))
+            if lo is None and hi is None:
+                lo = 1
+            if lo is not None and hi is not None and lo > hi:
+                lo, hi = hi, lo
+            args = {"min_value": lo, "max_value": hi}
+        name = "s"
+        table["columns"].append({"name": name, "phys": "object", "cells": cells})
+        scols.append({"name": name, "dtype": "str", "nullable": True, "unique": False, "required": True,
+                      "checks": [{"kind": kind, "args": args}]})
+        case = {"spec": spec, "table": table, "parser_ops": [], "lazy_container": False}
+        return case
     case = {"spec": spec, "table": table}
     r = draw(st.integers(0, 9))
     if r >= 3:
